@@ -89,7 +89,10 @@ def run(ctx):
 
     scale_mode = [1.0]
 
-    def experiment(circuits, inputs):
+    xargs = {"cur": None, "seen": []}
+
+    def experiment(circuits, inputs, *extra):
+        xargs["seen"].append(list(extra))
         out = []
         for c, s in zip(circuits, inputs):
             ctx.count("callback_pairs_answered")
@@ -128,6 +131,18 @@ def run(ctx):
             return flaky
         return cb
 
+    def new_obj(cls, n_, base_, cb_):
+        """Builds the tomography object with the optional experiment_args omitted, None, empty or holding 1-3 values."""
+        r_ = rng.random()
+        if r_ < 0.5:
+            xargs["cur"] = None
+            return cls(n_, base_, cb_)
+        xargs["cur"] = [None, [], [3], ["shots", {"a": 1}], [None], [0, 0.5, "x"]][int(rng.integers(6))]
+        ctx.bucket("experiment_args_given")
+        if rng.random() < 0.5:
+            return cls(n_, base_, cb_, xargs["cur"])
+        return cls(n_, base_, cb_, experiment_args=xargs["cur"])
+
     def attempt(fn):
         """Runs fn(); if the experiment is armed to fail, the failing first run comes first."""
         if fl["armed"]:
@@ -138,7 +153,14 @@ def run(ctx):
                 ctx.bucket("process_called_again_after_failed_run")
                 ctx.count("failed_first_run:" + str(fl["how"]) + ":" + type(e_).__name__)
             fl["armed"] = False
-        return fn()
+        xargs["seen"].clear()
+        res_ = fn()
+        want_ = list(xargs["cur"] or [])
+        if any(x != want_ for x in xargs["seen"]) or not xargs["seen"]:
+            ctx.violation(f"the experiment was called with extra arguments {xargs['seen'][:2]}, experiment_args was "
+                          f"{xargs['cur']!r}", mechanism="experiment_args_not_passed_on", monitor="experiment callback")
+        ctx.count("experiment_args_checked")
+        return res_
 
     earlier: list = []
     while not ctx.out_of_time():
@@ -188,7 +210,9 @@ def run(ctx):
           while True:
             choi_ref = tomo.choi_from_unitary(v)
             if method == "LI":
-                pt = objs.setdefault("pt", tomo.LIProcessTomography(n, base, callback()))
+                if "pt" not in objs:
+                    objs["pt"] = new_obj(tomo.LIProcessTomography, n, base, callback())
+                pt = objs["pt"]
                 choi = attempt(pt.process)
                 ctx.count("li_postconditions")
                 if complex_nonsym: ctx.bucket("li_complex_nonsymmetric")
@@ -203,7 +227,9 @@ def run(ctx):
                     ctx.violation(f"LI fidelity against choi_from_unitary(V) is {fid:.9f}", case=case,
                                   mechanism="li_fidelity", monitor="LIProcessTomography.process post-condition")
             elif method == "MLE":
-                pt = objs.setdefault("pt", tomo.MLEProcessTomography(n, base, callback()))
+                if "pt" not in objs:
+                    objs["pt"] = new_obj(tomo.MLEProcessTomography, n, base, callback())
+                pt = objs["pt"]
                 choi = attempt(pt.process)
                 ctx.count("mle_postconditions")
                 if complex_nonsym: ctx.bucket("mle_complex_nonsymmetric")
@@ -230,7 +256,9 @@ def run(ctx):
                 if kind == "same" and rng.random() < 0.5:
                     target = target * np.exp(1j * rng.uniform(0, 6.28))      # a global phase is irrelevant
                 case["target"] = kind
-                gf = objs.setdefault("gf", tomo.GateFidelity(n, base, callback()))
+                if "gf" not in objs:
+                    objs["gf"] = new_obj(tomo.GateFidelity, n, base, callback())
+                gf = objs["gf"]
                 f = attempt(lambda: gf.process(target))
                 ctx.count("gate_fidelity_postconditions")
                 want = (abs(np.trace(target.conj().T @ v)) ** 2 + d) / (d * (d + 1))
